@@ -1259,10 +1259,10 @@ func (rs *roundState) evaluate(run *vk.Run, probeAt int64) {
 	run.Count("close_race_handshakes_completed_before_close", int64(nBefore))
 	run.Count("close_race_handshakes_overlapping_close", int64(nOverlap))
 	run.Count("close_race_handshakes_started_after_close_returned", int64(nAfter))
-	run.Count("close_race_http_200_open", int64(n200))
-	run.Count("close_race_http_refused", int64(nRefused))
+	run.Count("close_race_client_received_open", int64(n200))
+	run.Count("close_race_client_refused", int64(nRefused))
 	if nErr > 0 {
-		run.Count("close_race_http_no_answer", int64(nErr))
+		run.Count("close_race_client_no_answer", int64(nErr))
 	}
 	for sid := range byHTTP {
 		if rs.tr.get(sid) == nil {
